@@ -331,6 +331,7 @@ fn run_one(kind: &str, sub: Sub, seed: u64, replay: Option<Vec<u8>>) -> (sched::
                 }
                 flag.0.store(false, SeqCst);
                 let pos = ctx.call(lt, &format!("poll {j} {tokn}"));
+                sh.lock().unwrap().evs.push(Ev { who: lt, what: "pollcall".into(), v: 0, pos });
                 let w: Waker = flag.clone().into();
                 match st.poll(&w) {
                     Poll::Ready(Some((v, h))) => {
@@ -360,13 +361,14 @@ fn run_one(kind: &str, sub: Sub, seed: u64, replay: Option<Vec<u8>>) -> (sched::
     // ---------------------------------------------------------------- cancel requests (sub = cancel)
     let cancelled: Arc<Mutex<Vec<usize>>> = Arc::new(Mutex::new(vec![]));
     if sub == Sub::Cancel {
-        let (ch, cancelled) = (ch.clone(), cancelled.clone());
+        let (ch, cancelled, sh) = (ch.clone(), cancelled.clone(), sh.clone());
         let targets: Vec<usize> = (0..k).filter(|_| rng.chance(2, 3)).collect();
         let delay = rng.below(12);
         let me = np + k;
         bodies.push(Box::new(move |ctx| {
             for _ in 0..delay { ctx.yield_point("h.delay", 0); }
             for j in targets {
+                sh.lock().unwrap().evs.push(Ev { who: me, what: "cancelcall".into(), v: j as u32, pos: 0 });
                 ctx.call(me, &format!("cancel {j}"));
                 ch.cancel_stream(j as u32);
                 ctx.ret("unit");
@@ -418,6 +420,14 @@ fn run_one(kind: &str, sub: Sub, seed: u64, replay: Option<Vec<u8>>) -> (sched::
         Verdict::Completed => {
             let all_cancelled = cancelled.lock().unwrap().len() == k;
             if !all_cancelled { for e in &sent { if !seen.contains_key(&e.v) { viol.push(("lost".into(), format!("event {} was accepted but never yielded although the streams were driven until the channel was empty", e.v))); } } }
+            // a stream only ends when it finds nothing buffered: a poll that STARTED after the send of an event had returned
+            // cannot answer end-of-stream while that event is never yielded to anybody (it was in the queue during that poll)
+            for (ie, end) in s.evs.iter().enumerate().filter(|(_, e)| e.what == "end") {
+                if let Some(ip) = s.evs[..ie].iter().rposition(|e| e.what == "pollcall" && e.who == end.who) {
+                    for e in s.evs[..ip].iter().filter(|e| e.what == "sent") { if !seen.contains_key(&e.v) {
+                        viol.push(("buffered_event_dropped_at_end".into(), format!("stream {} answered end-of-stream in a poll that started after the send of event {} had returned, yet no stream ever yielded that event: the stream ended with an accepted event buffered", end.who - 100, e.v))); } }
+                }
+            }
             if ch.running() != 0 && false { viol.push(("running_count".into(), format!("running streams count {} after all ended", ch.running()))); }
         }
         Verdict::Deadlock if s.evs.iter().any(|e| e.what == "suspended") && !s.evs.iter().any(|e| e.what == "others_finished") => {
